@@ -15,6 +15,7 @@
 (*   pref     what the planner prefers for the (labels, chunks) at hand:     *)
 (*            "blockwise" | "cohorts" | "map-reduce"                         *)
 (*   hasCohorts  the planner returned a non-empty cohort dictionary          *)
+(*   hasCohortsM the same when asked to merge (method="cohorts" given)        *)
 (*   oneBlock    a single block along the reduced axes                       *)
 (* Outcome: [kind |-> "ok", method, reindexBlockwise, lazy]                   *)
 (*        | [kind |-> "ValueError" | "NotImplementedError"]                   *)
@@ -52,7 +53,7 @@ ChooseMethod(c) ==
       \* reindexing at the block stage requested and the method left open: only map-reduce can honour it
       pref == IF c.method = "none" /\ c.reindex = "true" /\ c.fclass \notin {"bwonly", "fl"} THEN "map-reduce" ELSE pref0
   IN
-  IF c.method # "none" THEN (IF c.method = "cohorts" /\ ~c.hasCohorts THEN "map-reduce" ELSE c.method)
+  IF c.method # "none" THEN (IF c.method = "cohorts" /\ ~c.hasCohortsM THEN "map-reduce" ELSE c.method)
   ELSE IF c.fclass \in {"bwonly", "fl"} THEN (IF pref # "blockwise" THEN "VE" ELSE "blockwise")   \* no chunk function: blockwise only
   ELSE IF ~c.allAxes THEN "map-reduce"
   ELSE IF IsArg(c) /\ pref = "blockwise" THEN (IF c.hasCohorts THEN "cohorts" ELSE "map-reduce")
@@ -80,14 +81,18 @@ Outcome(c) ==
     ELSE IF IsArg(c) /\ m = "blockwise" /\ ~c.oneBlock THEN Refuse("NotImplementedError")
     ELSE IF IsArg(c) /\ m # "blockwise" /\ c.byNdim = 2 /\ c.allAxes THEN Refuse("NotImplementedError")   \* several reduced axes
     ELSE IF ~c.allAxes /\ m \in {"blockwise", "cohorts"} THEN Refuse("NotImplementedError")
-    ELSE LET \* the second validation receives the strategy resolved by the first one (a True/False answer is kept;
-             \* only "not yet decided" is resolved with the method finally chosen)
-             c2 == IF v1 = "T" THEN [c EXCEPT !.reindex = "true"] ELSE IF v1 = "F" THEN [c EXCEPT !.reindex = "false"] ELSE c
-             v2 == ValidateReindex(c2, m) IN
+    ELSE LET \* the second _validate_reindex call receives the ReindexStrategy resolved by the first one: its refusals test
+             \* `reindex is True` (the bool) and are skipped, a decided True/False is kept, only "not yet decided" is
+             \* resolved with the method finally chosen
+             v2 == IF v1 \in {"T", "F"} THEN v1 ELSE ValidateReindex(c, m) IN
          IF v2 = "VE" THEN Refuse("ValueError")
          ELSE IF v2 = "NIE" THEN Refuse("NotImplementedError")
          ELSE IF ~c.expected /\ c.byDask /\ v2 = "T" THEN Refuse("ValueError")
          ELSE IF m = "cohorts" /\ v2 = "T" THEN Refuse("ValueError")
+         \* deviation: reindex=True with the method left open and a blockwise plan chosen automatically (order statistics)
+         \* slips past the reindex/blockwise refusal above and fails in graph construction with dask's own ValueError
+         \* ("Dimension 0 has N blocks, adjust_chunks specified with 1 blocks") as soon as there is more than one block
+         ELSE IF m = "blockwise" /\ v2 = "T" /\ ~c.byDask /\ ~c.oneBlock THEN Refuse("ValueError")
          ELSE Ok(m, v2 = "T", TRUE)
 
 (***************************************************************************)
